@@ -72,7 +72,11 @@ def interesting(nodes):
             s += 2 * (n['p'][0] == 1) + (len(n['d']) == 3)
         elif op == 'LoopConcat' and n['p'][2] == 0:
             s += 4
-        elif op in ('LoopSumN', 'PolyGrad', 'PolyMul', 'UniqueInverse', 'Monomial'):
+        elif op in ('PolyGrad', 'PolyMul'):
+            s += 2 + 3 * (nodes[n['d'][0] - 1]['sh'][-1:] >= [3])     # at least degree 1 in two variables / 2 in one
+        elif op == 'Legendre':
+            s += 2 * (n['p'][0] >= 2)
+        elif op in ('LoopSumN', 'UniqueInverse', 'Monomial'):
             s += 2
         elif op in ('Real', 'Imag', 'Conjugate') and nodes[n['d'][0] - 1]['op'] in ('FloatToComplex', 'Multiply', 'Add'):
             s += 2
@@ -329,17 +333,33 @@ def select_covering(programs, k, rng, ops, need_arg=False):
     """like select(), but first makes sure that every constructor of `ops` (in that priority order) occurs in at least one
     selected program, as far as k allows: a small sample must not miss a constructor of the family"""
     ranked = select(programs, len(programs), rng, need_arg=need_arg)
+
+    def has(p, op, live):
+        """p contains constructor op (live: applied to something that depends on an argument, and the root depends on it)"""
+        if not live:
+            return any(n['op'] == op for n in p)
+        dep, use = [], [False] * len(p)
+        for n in p:
+            dep.append(n['op'] == 'Arg' or any(dep[d - 1] for d in n['d']))
+        use[-1] = True
+        for i in range(len(p) - 1, -1, -1):
+            if use[i]:
+                for d in p[i]['d']:
+                    use[d - 1] = True
+        return any(n['op'] == op and dep[i] and use[i] for i, n in enumerate(p))
+
     chosen, seen = [], set()
-    for op in ops:
+    ext = [op for op in ops if op not in BASE_OPS]
+    for rnd, op in [(1, o) for o in ext] + [(2, o) for o in ext] + [(1, o) for o in ops if o in BASE_OPS]:   # two programs per new constructor
         if len(chosen) >= k:
             break
-        if any(any(n['op'] == op for n in p) for p in chosen):
+        if sum(has(p, op, True) for p in chosen) >= rnd:
             continue
-        for p in ranked:
-            c = canon(p)
-            if c not in seen and any(n['op'] == op for n in p):
-                seen.add(c)
-                chosen.append(p)
+        for live in (True, False):
+            hit = next((p for p in ranked if canon(p) not in seen and has(p, op, live)), None)
+            if hit is not None:
+                seen.add(canon(hit))
+                chosen.append(hit)
                 break
     for p in ranked:
         if len(chosen) >= k:
